@@ -49,6 +49,9 @@ def build(tier):
         jobs.append(guarded(lambda n=n, m=m: bundle_num.converged_vcs(n, m, cap, info), f'bundle e/sconverged n={n} m={m}'))
     for n, m in ((1, 0), (2, 1), (3, 2)):
         jobs.append(guarded(lambda n=n, m=m: bundle_num.append_aggregate_vcs(n, m, cap, info), f'bundle append_aggregate n={n} m={m}'))
+    # bundle_t::solve: the analytic branches (1 and 2 entries); the n = 3 minimiser identity takes 10-30 s: thorough tier
+    for n, m in ((2, 1), (1, 2), (2, 2)) + (((3, 2),) if thorough else ()):
+        jobs.append(guarded(lambda n=n, m=m: bundle_num.solve_vcs(n, m, cap, info), f'bundle solve n={n} m={m}'))
     bounded = []
     for r in [j() for j in jobs]:
         bounded += r
